@@ -234,7 +234,7 @@ fn slices(thorough: bool) -> Vec<Slice> {
         v.push(Slice { name: "csid 65 written in its 2-byte and its 3-byte form, csid 320 (its length bytes are those of 65 swapped)",
             csids: vec![(65, 2), (65, 3), (320, 3)], types: vec![9], msids: vec![1], tss: vec![0, 1, 2], lens: vec![1, 3], setchunks: vec![], init_chunk: 2 });
         v.push(Slice { name: "large chunks (4,097 / 70,000), multi-chunk messages, csid 5",
-            csids: vec![(5, 1)], types: vec![9], msids: vec![1], tss: vec![0, 40], lens: vec![0, 12_000, 150_000], setchunks: vec![4_097, 70_000], init_chunk: 128 });
+            csids: vec![(5, 1)], types: vec![9], msids: vec![1], tss: vec![0, 40], lens: vec![0, 12_000, 150_000], setchunks: vec![4_097, 70_000, 0x7FFF_FFFF], init_chunk: 128 });
     } else {
         v.push(Slice { name: "csid 3 (1-byte form), all header choices, all timestamps, chunk size 2",
             csids: vec![(3, 1)], types: vec![8, 9], msids: vec![1, 2, 0xFFFF_FFFF], tss: TS13.to_vec(), lens: vec![0, 1, 2, 3, 5], setchunks: vec![], init_chunk: 2 });
@@ -249,7 +249,7 @@ fn slices(thorough: bool) -> Vec<Slice> {
         v.push(Slice { name: "csids 65/66/319 written in 2-byte and 3-byte form, csids 320/576 (length bytes swapped)",
             csids: vec![(65, 2), (65, 3), (320, 3), (66, 2), (576, 3), (319, 2), (319, 3)], types: vec![9], msids: vec![1], tss: vec![0, 1, 2], lens: vec![1, 3], setchunks: vec![], init_chunk: 2 });
         v.push(Slice { name: "large chunks (4,097 / 5,000 / 70,000), multi-chunk messages, csid 5",
-            csids: vec![(5, 1)], types: vec![9], msids: vec![1], tss: vec![0, 40], lens: vec![0, 4_097, 12_000, 150_000], setchunks: vec![4_097, 5_000, 70_000], init_chunk: 128 });
+            csids: vec![(5, 1)], types: vec![9], msids: vec![1], tss: vec![0, 40], lens: vec![0, 4_097, 12_000, 150_000], setchunks: vec![4_097, 5_000, 70_000, 0x7FFF_FFFF], init_chunk: 128 });
     }
     v
 }
